@@ -158,6 +158,15 @@ Theorem C04_acceptor_sound :
     forall P ops outs, check_trace K V cmp eqv eqe P ops outs = true -> accepts K V cmp eqv P ops outs.
 Proof. intros K V cmp eqv eqe H. exact (check_trace_sound cmp eqv eqe H). Qed.
 
+(** … and accepts everything the specification allows, however the bags are listed: an [api]
+    verdict of the driver is never a false alarm of the acceptor. *)
+Theorem C04_acceptor_complete :
+  forall (K V : Type) (cmp : K -> K -> Z) (eqv : V -> V -> bool) (eqe : entry K V -> entry K V -> bool),
+    (forall a b, eqe a b = true -> a = b) -> (forall a, eqe a a = true) ->
+    forall P ops outs, accepts K V cmp eqv P ops outs ->
+      forall P1, peq P P1 -> check_trace K V cmp eqv eqe P1 ops outs = true.
+Proof. intros K V cmp eqv eqe H1 H2. exact (check_trace_complete cmp eqv eqe H1 H2). Qed.
+
 (** Non-vacuity: a concrete history (duplicates of the extremal key, growth from size 0). *)
 Example C04_example :
   run nat nat (fun a b => Z.of_nat a - Z.of_nat b) Nat.eqb Binary [0%nat]
@@ -195,3 +204,4 @@ Print Assumptions C04_fibonacci_delete_consolidates.
 Print Assumptions C04_degree_table_bound.
 Print Assumptions C04_reverse_comparator.
 Print Assumptions C04_acceptor_sound.
+Print Assumptions C04_acceptor_complete.
